@@ -96,16 +96,16 @@ type Conn struct {
 	A ma.Multiaddr
 }
 
-func (c Conn) RemotePeer() peer.ID           { return c.P }
-func (c Conn) RemoteMultiaddr() ma.Multiaddr { return c.A }
-func (n *Net) LocalPeer() peer.ID                    { return n.Self }
-func (n *Net) Peerstore() peerstore.Peerstore        { return n.PS }
-func (n *Net) Notify(network.Notifiee)               { n.mu.Lock(); n.Notifiees++; n.mu.Unlock() }
-func (n *Net) StopNotify(network.Notifiee)           { n.mu.Lock(); n.Notifiees--; n.mu.Unlock() }
-func (n *Net) ListenAddresses() []ma.Multiaddr       { return nil }
+func (c Conn) RemotePeer() peer.ID                               { return c.P }
+func (c Conn) RemoteMultiaddr() ma.Multiaddr                     { return c.A }
+func (n *Net) LocalPeer() peer.ID                                { return n.Self }
+func (n *Net) Peerstore() peerstore.Peerstore                    { return n.PS }
+func (n *Net) Notify(network.Notifiee)                           { n.mu.Lock(); n.Notifiees++; n.mu.Unlock() }
+func (n *Net) StopNotify(network.Notifiee)                       { n.mu.Lock(); n.Notifiees--; n.mu.Unlock() }
+func (n *Net) ListenAddresses() []ma.Multiaddr                   { return nil }
 func (n *Net) InterfaceListenAddresses() ([]ma.Multiaddr, error) { return nil, nil }
-func (n *Net) ClosePeer(peer.ID) error               { return nil }
-func (n *Net) Close() error                          { return nil }
+func (n *Net) ClosePeer(peer.ID) error                           { return nil }
+func (n *Net) Close() error                                      { return nil }
 
 // Bus wraps the real event bus; FailSubscribe makes Subscribe fail; Subs counts
 // the subscriptions that are open.
